@@ -91,7 +91,7 @@ import (
 //@   ensures  out:   result != nil ==> result.next == nil && result.prev == nil && result.owner == nil
 //@   ensures  nodes: forall m *Node[T] :: m != result && m != &l.root && (len(old(l.elems)) < 2 || m != old(l.elems[len(l.elems)-2])) ==>
 //@                       m.next == old(m.next) && m.prev == old(m.prev)
-//@   ensures  ghosts: forall m *Node[T] :: m != result ==> m.owner == old(m.owner)
+//@   ensures  ghosts: forall m *Node[T] :: (m != result || result == nil) ==> m.owner == old(m.owner)
 //@   ensures  lists: forall k *List[T] :: k != l ==> k.elems == old(k.elems)
 
 //@ func (*List).PopFront
@@ -109,7 +109,7 @@ import (
 //@   ensures  out:   result != nil ==> result.next == nil && result.prev == nil && result.owner == nil
 //@   ensures  nodes: forall m *Node[T] :: m != result && m != &l.root && (len(old(l.elems)) < 2 || m != old(l.elems[1])) ==>
 //@                       m.next == old(m.next) && m.prev == old(m.prev)
-//@   ensures  ghosts: forall m *Node[T] :: m != result ==> m.owner == old(m.owner)
+//@   ensures  ghosts: forall m *Node[T] :: (m != result || result == nil) ==> m.owner == old(m.owner)
 //@   ensures  lists: forall k *List[T] :: k != l ==> k.elems == old(k.elems) && k.base == old(k.base)
 
 // SetLink pairs a version node with its all-store partner (ghost linkOf is the back pointer).
@@ -135,6 +135,7 @@ import (
 //@ pure func hasLink(n *Node[T]) bool = n != nil && n.link != nil
 //@ func (*Node).DeleteLink
 //@   requires linked: hasLink(n) ==> toplevel(n.link) && n.link.owner != nil && listInv(n.link.owner) && listConv(n.link.owner)
+//@   requires popped: n != nil ==> n.owner == nil
 //@   modifies Node.next, Node.prev, Node.link, Node.linkOf, Node.owner, Node.idx, List.elems
 //@   ghost old(n.link.owner).elems := ite(old(hasLink(n)), remove(old(n.link.owner.elems), old(n.link.idx - n.link.owner.base)), old(n.link.owner.elems))
 //@   ghost forall m *Node[T] :: m.idx := ite(old(hasLink(n)) && m.owner == old(n.link.owner) && m.idx > old(n.link.idx), m.idx - 1, m.idx)
@@ -147,14 +148,17 @@ import (
 //@   ensures  after:  old(hasLink(n)) ==> forall i int :: old(n.link.idx - n.link.owner.base) <= i && i < len(old(n.link.owner).elems) ==> old(n.link.owner).elems[i] == old(n.link.owner.elems)[i+1]
 //@   ensures  out:    result != nil ==> result.next == nil && result.prev == nil && result.owner == nil
 //@   ensures  unlink: n != nil ==> n.link == nil
-//@   ensures  nodes:  forall m *Node[T] :: m != result && m != old(result.prev) && m != old(result.next) ==> m.next == old(m.next) && m.prev == old(m.prev)
+//@   ensures  _nodes:  forall m *Node[T] :: m != result && m != old(result.prev) && m != old(result.next) ==> m.next == old(m.next) && m.prev == old(m.prev)
 //@   ensures  links:  forall m *Node[T] :: m != n ==> m.link == old(m.link)
-//@   ensures  backs:  (result != nil ==> result.linkOf == nil) && forall m *Node[T] :: m != result ==> m.linkOf == old(m.linkOf)
-//@   ensures  owners: forall m *Node[T] :: m != result ==> m.owner == old(m.owner)
-//@   ensures  idxs:   forall m *Node[T] :: m.idx == ite(old(hasLink(n)) && old(m.owner) == old(n.link.owner) && old(m.idx) > old(n.link.idx), old(m.idx) - 1, old(m.idx))
+//@   ensures  backs:  (result != nil ==> result.linkOf == nil) && forall m *Node[T] :: (m != result || result == nil) ==> m.linkOf == old(m.linkOf)
+//@   ensures  nodeowners: forall m *Node[T] :: (m != result || result == nil) ==> m.owner == old(m.owner)
+//@   ensures  _idxs:   forall m *Node[T] :: m.idx == ite(old(hasLink(n)) && old(m.owner) == old(n.link.owner) && old(m.idx) > old(n.link.idx), old(m.idx) - 1, old(m.idx))
 //@   ensures  lists:  forall k *List[T] :: !(old(hasLink(n)) && k == old(n.link.owner)) ==> k.elems == old(k.elems)
 //@   ensures  otherinv:  forall k *List[T] :: k != nil && !(old(hasLink(n)) && k == old(n.link.owner)) && old(listInv(k)) ==> listInv(k)
 //@   ensures  otherconv: forall k *List[T] :: k != nil && !(old(hasLink(n)) && k == old(n.link.owner)) && old(listConv(k)) ==> listConv(k)
+//@   ensures  keepfiles: forall g *file :: g != nil && old(fileOk(g)) && (g.withoutSearch || &g.l != old(n.link.owner)) ==> fileOk(g)
+//@   ensures  keeptx:    forall t *Transaction :: t != nil && old(txInv(t)) &&
+//@                          (t.WithoutSearch || forall k string :: has(t.store, k) ==> &t.store[k].l != old(n.link.owner)) ==> txInv(t)
 
 // ---------------------------------------------------------------------------
 // Per-key version list (file.go): the list plus, unless withoutSearch, an array
@@ -199,15 +203,15 @@ import (
 //@   ghost backing(f.arr).owner := ite(f != nil && n != nil && !f.withoutSearch, f, backing(f.arr).owner)
 //@   ensures  inv:    f != nil ==> fileInv(f) && sortedF(f)
 //@   ensures  elems:  f != nil && n != nil ==> f.l.elems == old(f.l.elems) ++ [n]
-//@   ensures  arrback: f != nil ==> backing(f.arr) == old(backing(f.arr)) || fresh(backing(f.arr))
+//@   ensures  _arrback: f != nil ==> backing(f.arr) == old(backing(f.arr)) || fresh(backing(f.arr))
 //@   ensures  noop:   (f == nil || n == nil) ==> (f != nil ==> f.l.elems == old(f.l.elems)) && memsame(*Node[model.File])
-//@   ensures  nodes:  forall m *Node[model.File] :: m != n && m.owner == old(m.owner) && (f == nil || old(m.owner) != &f.l) && (f == nil || m != &f.l.root) ==>
+//@   ensures  _nodes:  forall m *Node[model.File] :: m != n && m.owner == old(m.owner) && (f == nil || old(m.owner) != &f.l) && (f == nil || m != &f.l.root) ==>
 //@                       m.next == old(m.next) && m.prev == old(m.prev)
 //@   ensures  ghosts: forall m *Node[model.File] :: m != n ==> m.owner == old(m.owner) && m.idx == old(m.idx)
 //@   ensures  lists:  forall k *List[model.File] :: (f == nil || k != &f.l) ==> k.elems == old(k.elems)
 //@   ensures  files:  forall g *file :: g != f ==> g.arr == old(g.arr)
-//@   ensures  mem:    f != nil ==> memframe(f.arr)
-//@   ensures  owners: forall b *backing :: (f == nil || b != backing(f.arr)) ==> b.owner == old(b.owner)
+//@   ensures  _mem:    f != nil ==> memframe(f.arr)
+//@   ensures  _owners: forall b *backing :: (f == nil || b != backing(f.arr)) ==> b.owner == old(b.owner)
 
 // ---------------------------------------------------------------------------
 // Object pools (pool.go).  TRUSTED per instantiation: the pool's own bookkeeping (a free list under a
@@ -266,10 +270,15 @@ import (
 //@     n.next == nil && n.prev == nil && n.link == nil && n.owner == nil && n.linkOf == nil &&
 //@     n.v.Seq == 0 && n.v.Key == "" && n.v.TxId == "" && n.v.ContentId == ""
 
+// inPool: the node is currently held by a pool (so two Acquire calls never return the same node)
+//@ ghost field (Node).inPool bool
 //@ func (*Pool[Node[model.File]]).Acquire
 //@   trusted
 //@   requires nn: p != nil
-//@   ensures  r:  result != nil && toplevel(result) && zeroNode(result)
+//@   modifies Node[model.File].inPool
+//@   ensures  r:  result != nil && toplevel(result) && zeroNode(result) && !result.inPool && (old(result.inPool) || fresh(result))
+//@   ensures  others: forall m *Node[model.File] :: m != result ==> m.inPool == old(m.inPool)
+//@   ensures  unreferenced: forall m *Node[model.File] :: m.link != result && m.linkOf != result
 
 // Release(link, n): both nodes are zeroed; every other node, and every File value that is not one of
 // the two nodes' values, is untouched.
@@ -277,22 +286,31 @@ import (
 //@   trusted
 //@   requires nn:       p != nil
 //@   requires two:      len(els) == 2 && els[0] != nil && els[1] != nil
-//@   requires unlinked: els[0].owner == nil && els[1].owner == nil && toplevel(els[0]) && toplevel(els[1])
-//@   modifies Node[model.File].next, Node[model.File].prev, Node[model.File].link, Node[model.File].linkOf, model.File.*
+//@   requires unlinked: els[0].owner == nil && els[1].owner == nil && toplevel(els[0]) && toplevel(els[1]) && !els[0].inPool && !els[1].inPool && els[0] != els[1]
+//@   modifies Node[model.File].next, Node[model.File].prev, Node[model.File].link, Node[model.File].linkOf, model.File.*, Node[model.File].inPool
+//@   ensures  pooled:   els[0].inPool && els[1].inPool && forall m *Node[model.File] :: m != els[0] && m != els[1] ==> m.inPool == old(m.inPool)
 //@   ensures  zeroed:   zeroNode(els[0]) && zeroNode(els[1])
 //@   ensures  nodes:    forall m *Node[model.File] :: m != els[0] && m != els[1] ==> m.next == old(m.next) && m.prev == old(m.prev) &&
 //@                         m.link == old(m.link) && m.linkOf == old(m.linkOf) &&
 //@                         m.v.Seq == old(m.v.Seq) && m.v.Key == old(m.v.Key) && m.v.TxId == old(m.v.TxId) && m.v.ContentId == old(m.v.ContentId)
 //@   ensures  values:   forall g *model.File :: g != &els[0].v && g != &els[1].v ==>
 //@                         g.Seq == old(g.Seq) && g.Key == old(g.Key) && g.TxId == old(g.TxId) && g.ContentId == old(g.ContentId)
+//@   ensures  keeplists: forall k *List[model.File] :: k != nil && old(listInv(k)) ==> listInv(k)
+//@   ensures  keepfiles: forall g *file :: g != nil && old(fileOk(g)) ==> fileOk(g)
+//@   ensures  keeptx:    forall t *Transaction :: t != nil && old(txInv(t)) ==> txInv(t)
 
 // ---------------------------------------------------------------------------
 // Per-transaction version store (transaction.go): key -> version list.
 
+// kindF: the searchable lists (per-transaction and main) hold version nodes, each with a partner (link) in
+// the all-store; the all-store's lists (withoutSearch) hold exactly such partner nodes.
+//@ pure func kindF(f *file) bool =
+//@     forall i int :: 0 <= i && i < len(f.l.elems) ==> (f.withoutSearch ==> f.l.elems[i].linkOf != nil && f.l.elems[i].link == nil) &&
+//@                                                    (!f.withoutSearch ==> f.l.elems[i].link != nil && f.l.elems[i].linkOf == nil)
 //@ pure func txFileOk(tx *Transaction, k string) bool =
 //@     tx.store[k] != nil && toplevel(tx.store[k]) && tx.store[k].gtx == tx && tx.store[k].gkey == k &&
 //@     fileInv(tx.store[k]) && sortedF(tx.store[k]) && positiveF(tx.store[k]) && keyedF(tx.store[k]) &&
-//@     tx.store[k].withoutSearch == tx.WithoutSearch
+//@     tx.store[k].withoutSearch == tx.WithoutSearch && kindF(tx.store[k])
 //@ opaque pure func txInv(tx *Transaction) bool =
 //@     tx != nil && (tx.store != nil ==> mapref(tx.store).mowner == tx) && forall k string :: has(tx.store, k) ==> txFileOk(tx, k)
 
@@ -300,6 +318,7 @@ import (
 //@ func (*Transaction).PushBack
 //@   requires inv:    txInv(tx)
 //@   requires node:   n != nil && toplevel(n) && n.owner == nil && n.v.Seq > 0
+//@   requires kind:   (tx.WithoutSearch ==> n.linkOf != nil && n.link == nil) && (!tx.WithoutSearch ==> n.link != nil && n.linkOf == nil)
 //@   requires order:  has(tx.store, n.v.Key) && len(tx.store[n.v.Key].l.elems) > 0 ==>
 //@                       tx.store[n.v.Key].l.elems[len(tx.store[n.v.Key].l.elems)-1].v.Seq < n.v.Seq
 //@   modifies Node[model.File].next, Node[model.File].prev, Node[model.File].owner, Node[model.File].idx, List[model.File].elems,
@@ -310,17 +329,17 @@ import (
 //@   ensures  inv:    txInv(tx)
 //@   ensures  has:    has(tx.store, n.v.Key)
 //@   ensures  othertx: forall t *Transaction :: t != nil && t != tx && old(txInv(t)) ==> txInv(t)
-//@   ensures  mowners: forall mp *mapref :: mp != mapref(tx.store) ==> mp.mowner == old(mp.mowner)
+//@   ensures  _mowners: forall mp *mapref :: mp != mapref(tx.store) ==> mp.mowner == old(mp.mowner)
 //@   ensures  first:  !old(has(tx.store, n.v.Key)) ==> len(tx.store[n.v.Key].l.elems) == 1 && tx.store[n.v.Key].l.elems[0] == n
 //@   ensures  more:   old(has(tx.store, n.v.Key)) ==> tx.store[n.v.Key] == old(tx.store[n.v.Key]) && tx.store[n.v.Key].l.elems == old(tx.store[n.v.Key].l.elems) ++ [n]
 //@   ensures  keys:   forall k string :: k != n.v.Key ==> has(tx.store, k) == old(has(tx.store, k)) && (has(tx.store, k) ==> tx.store[k] == old(tx.store[k]))
-//@   ensures  nodes:  forall m *Node[model.File] :: m != n && m.owner == old(m.owner) && old(m.owner) != &tx.store[n.v.Key].l && m != &tx.store[n.v.Key].l.root ==>
+//@   ensures  _nodes:  forall m *Node[model.File] :: m != n && m.owner == old(m.owner) && old(m.owner) != &tx.store[n.v.Key].l && m != &tx.store[n.v.Key].l.root ==>
 //@                       m.next == old(m.next) && m.prev == old(m.prev)
 //@   ensures  ghosts: forall m *Node[model.File] :: m != n ==> m.owner == old(m.owner) && m.idx == old(m.idx)
 //@   ensures  lists:  forall k *List[model.File] :: k != &tx.store[n.v.Key].l ==> k.elems == old(k.elems)
 //@   ensures  files:  forall g *file :: g != tx.store[n.v.Key] ==> g.arr == old(g.arr) && g.withoutSearch == old(g.withoutSearch) && g.gtx == old(g.gtx) && g.gkey == old(g.gkey)
-//@   ensures  mem:    memframe(tx.store[n.v.Key].arr)
-//@   ensures  owners: forall b *backing :: b != backing(tx.store[n.v.Key].arr) ==> b.owner == old(b.owner)
+//@   ensures  _mem:    memframe(tx.store[n.v.Key].arr)
+//@   ensures  _owners: forall b *backing :: b != backing(tx.store[n.v.Key].arr) ==> b.owner == old(b.owner)
 //@   ensures  txs:    forall t *Transaction :: t != tx ==> t.store == old(t.store)
 //@   ensures  maps:   forall mp map[string]*file :: mp != tx.store && mp != nil ==> forall k string :: has(mp, k) == old(has(mp, k)) && mp[k] == old(mp[k])
 
@@ -375,32 +394,36 @@ import (
 //@ func (*file).PopBack
 //@   requires inv:    f != nil ==> fileInv(f) && sortedF(f)
 //@   ensures  otherfiles: forall g *file :: g != nil && g != f && old(fileOk(g)) ==> fileOk(g)
+//@   ensures  ok:         f != nil && old(fileOk(f)) ==> fileOk(f)
+//@   ensures  keeptx:     forall t *Transaction :: t != nil && old(txInv(t)) ==> txInv(t)
 //@   modifies Node[model.File].next, Node[model.File].prev, Node[model.File].owner, List[model.File].elems, file.arr
 //@   ensures  r:      result == ite(f == nil || len(old(f.l.elems)) == 0, nil, old(f.l.elems[len(f.l.elems)-1]))
 //@   ensures  inv:    f != nil ==> fileInv(f) && sortedF(f)
 //@   ensures  elems:  f != nil ==> (len(old(f.l.elems)) > 0 ==> f.l.elems == old(f.l.elems)[:len(old(f.l.elems))-1]) && (len(old(f.l.elems)) == 0 ==> f.l.elems == old(f.l.elems))
 //@   ensures  out:    result != nil ==> result.next == nil && result.prev == nil && result.owner == nil
-//@   ensures  nodes:  forall m *Node[model.File] :: m != result && m.owner == old(m.owner) && (f == nil || old(m.owner) != &f.l) && (f == nil || m != &f.l.root) ==>
+//@   ensures  _nodes:  forall m *Node[model.File] :: m != result && m.owner == old(m.owner) && (f == nil || old(m.owner) != &f.l) && (f == nil || m != &f.l.root) ==>
 //@                       m.next == old(m.next) && m.prev == old(m.prev)
-//@   ensures  ghosts: forall m *Node[model.File] :: m != result ==> m.owner == old(m.owner)
+//@   ensures  ghosts: forall m *Node[model.File] :: (m != result || result == nil) ==> m.owner == old(m.owner)
 //@   ensures  lists:  forall k *List[model.File] :: (f == nil || k != &f.l) ==> k.elems == old(k.elems)
 //@   ensures  files:  forall g *file :: g != f ==> g.arr == old(g.arr)
 
 //@ func (*file).PopFront
 //@   requires inv:    f != nil ==> fileInv(f) && sortedF(f)
 //@   ensures  otherfiles: forall g *file :: g != nil && g != f && old(fileOk(g)) ==> fileOk(g)
+//@   ensures  ok:         f != nil && old(fileOk(f)) ==> fileOk(f)
+//@   ensures  keeptx:     forall t *Transaction :: t != nil && old(txInv(t)) ==> txInv(t)
 //@   modifies Node[model.File].next, Node[model.File].prev, Node[model.File].owner, List[model.File].elems, List[model.File].base,
 //@            file.arr, mem[*Node[model.File]]
 //@   ensures  r:      result == ite(f == nil || len(old(f.l.elems)) == 0, nil, old(f.l.elems[0]))
 //@   ensures  inv:    f != nil ==> fileInv(f) && sortedF(f)
 //@   ensures  elems:  f != nil ==> (len(old(f.l.elems)) > 0 ==> f.l.elems == old(f.l.elems)[1:]) && (len(old(f.l.elems)) == 0 ==> f.l.elems == old(f.l.elems))
 //@   ensures  out:    result != nil ==> result.next == nil && result.prev == nil && result.owner == nil
-//@   ensures  nodes:  forall m *Node[model.File] :: m != result && m.owner == old(m.owner) && (f == nil || old(m.owner) != &f.l) && (f == nil || m != &f.l.root) ==>
+//@   ensures  _nodes:  forall m *Node[model.File] :: m != result && m.owner == old(m.owner) && (f == nil || old(m.owner) != &f.l) && (f == nil || m != &f.l.root) ==>
 //@                       m.next == old(m.next) && m.prev == old(m.prev)
-//@   ensures  ghosts: forall m *Node[model.File] :: m != result ==> m.owner == old(m.owner)
+//@   ensures  ghosts: forall m *Node[model.File] :: (m != result || result == nil) ==> m.owner == old(m.owner)
 //@   ensures  lists:  forall k *List[model.File] :: (f == nil || k != &f.l) ==> k.elems == old(k.elems) && k.base == old(k.base)
 //@   ensures  files:  forall g *file :: g != f ==> g.arr == old(g.arr)
-//@   ensures  mem:    f != nil ==> memframe(old(f.arr))
+//@   ensures  _mem:    f != nil ==> memframe(old(f.arr))
 
 // Collecting old versions up to a horizon removes exactly the versions that have a
 // successor not newer than the horizon (a prefix: the list is sorted), never the last one.
